@@ -16,11 +16,11 @@ P = {
          "Every ordered pair of the FQ2 alphabet through + - * == and commutativity, operator forms, associativity/distributivity triples, every unary observation, and agreement of the internal squaring with multiplication observed through G2::new(s^2 x, s^3 y, s) for every s; compared with pair arithmetic over BigUint (u^2 = -2); lazy-reduction bands (carry limb x number of subtractions) all required non-empty.",
          "Holds on the enumerated alphabet only. Trusted: rustc, num-bigint, reference model.",
          "DESIGN.md 5 (C12)"),
- "C14": (True, GRID + "; squares, non-residues, both axes of Fq2 on both sides of q/2, every small x as a compressed G1 encoding",
+ "C14": (True, GRID + "; squares, non-residues, both axes of Fq2 on both sides of q/2, every small element of Fq2, every small x as a compressed G1 encoding",
          "Fq::sqrt and Fq2::sqrt on a, a^2, 2a^2, -a^2 / x, x^2, nu*x^2 for every alphabet member and on every real and purely imaginary element of the axis alphabet (all four residuosity x half-plane classes required non-empty), decided by Euler's / the norm criterion with Some(s) squared back; G1::from_compressed on EVERY x below the bound.",
          "Which root is returned is unconstrained. Trusted: rustc, num-bigint.",
          "DESIGN.md 5 (C14)"),
- "C13": (True, GRID + "; every length 0..=70, every byte string of length <= 2, every short string over a 14-character alphabet, every bit index 0..=300",
+ "C13": (True, GRID + "; every length 0..=70, every byte string of length <= 2, every short string over a 14-character alphabet, every Unicode scalar value in four string contexts, every bit index 0..=300",
          "All conversions (from_slice, TryFrom, interpret, from_str, from_hash, to_slice, to_big_endian, set_bit) on complete small scopes and boundary patterns at every length, compared with integer arithmetic (int(bytes) mod p, (int mod (r-1))+1, decimal value mod p).",
          "from_str(\"\") and setting bit indices >= 256 deliberately unconstrained. Trusted: rustc, num-bigint.",
          "DESIGN.md 5 (C13)"),
@@ -52,7 +52,7 @@ P = {
          "Every case of the union of the quick alphabets (field pairs, conversions, every short byte string, set_bit indices, decoder corpus, group pairs, scalar multiples, pairings, Gt operations) is executed by the same driver in both builds and the observation records (result bytes / Err variant / None / panic text) must be identical; additionally 14 (thorough: 17) oracle-carrying checks, including the BFS machines, run in the dbg build and must not panic or deviate from the model.",
          "dbg keeps opt-level 3 and enables exactly debug-assertions and overflow-checks; identical panics in both profiles (documented unwraps) are not counted. Enumerated alphabets only.",
          "DESIGN.md 5 (C18)"),
- "C04": (True, GRID + "; all ordered pairs of concrete point values (discrete log x Jacobian representative), all triples of a small set",
+ "C04": (True, GRID + "; all ordered pairs of concrete point values (discrete log x Jacobian representative), all triples of a small set, representatives whose Jacobian X / Y / Z coordinate is a chosen boundary field value",
          "Every ordered pair over (D x {Aff, LibMul, LibSub, Scaled(2), Scaled(-1), Scaled(generic), ScaledX1, ScaledY1}) + 8 identity representatives for A+B, B+A, A-B, (A-B)+B, unary laws on every value, boundary field values pushed through the adder as Jacobian scalings, all triples of a small set; abstraction (x/z^2, y/z^3) compared with textbook affine chord-and-tangent on reference points; adder arm x relation histogram with every class required.",
          "Enumerated alphabet only. Trusted: rustc, num-bigint, reference model.",
          "DESIGN.md 5 (C04)"),
@@ -60,7 +60,7 @@ P = {
          "P*k and k*P for every (k, value) over the scalar alphabet x all representatives (identity included) against the reference k-fold sum; the discrete-log shortcut of the oracle is itself cross-checked against integer double-and-add; units 0/1/r-1, (a+b)P, (ab)P; EVERY scalar 0..bound and r-bound..r-1 on every representative of +-G and O.",
          "Enumerated alphabet only. Trusted: rustc, num-bigint, reference model.",
          "DESIGN.md 5 (C05)"),
- "C08": (True, GRID + "; all lengths 0..=140, all 256 prefix bytes, every single-bit flip, coordinate substitutions, cross-format confusion; executed in two build profiles",
+ "C08": (True, GRID + "; all lengths 0..=140, all 256 prefix bytes, every single-bit flip, coordinate substitutions, cross-format confusion, structured off-curve points of order r; executed in two build profiles",
          "Six decoders and Fq2::from_slice on the BYTES alphabet; the small dimensions are covered completely (all lengths, all prefix bytes, all bit positions; thorough: all two-bit flips of two points). Oracle: reference decoder (exact length/prefix, coordinates < q, curve equation, r*P = O by reference scalar multiplication); accepted inputs must denote the reference point and re-encode to the input; no panic; the whole corpus runs in the release build and in the dbg build (debug assertions + overflow checks).",
          "Which Err variant comes back is unconstrained. Enumerated corpus only. Trusted: rustc, num-bigint, reference model.",
          "DESIGN.md 5 (C08)"),
